@@ -397,7 +397,13 @@ func (j *judge) judgeElement(i int, full []xml.Token, rec *elemRec, written []st
 		if kind == "top" {
 			return stepOf(p, "top", "", xml.Name{Space: e.Space, Local: e.Local})
 		}
-		return stepOf(p, kind, typ, childName(k))
+		st := stepOf(p, kind, typ, childName(k))
+		if st == "non-matching" {
+			if own := stepOf(p, kind, typ, xml.Name{Space: e.Space, Local: e.Local}); own != "non-matching" {
+				return "stanza-own-name-" + own
+			}
+		}
+		return st
 	}
 
 	if x.OrWild != nil && len(rec.invs) == 1 && rec.invs[0].Tag == x.OrWild.Tag {
@@ -442,6 +448,30 @@ func (j *judge) judgeElement(i int, full []xml.Token, rec *elemRec, written []st
 		}
 		if x.Shape == "empty" && len(x.Invoke) == 1 && kind != "iq" {
 			c.Count("empty_stanza_to_wildcard", 1)
+		}
+		if kind == "iq" || kind == "message" || kind == "presence" {
+			nown := 0
+			for _, n := range ownNames(kind, e.Space) {
+				if _, ok := j.ref.pats[patKey{kind, typ, n}]; ok {
+					nown++
+				}
+			}
+			if nown > 0 {
+				c.Count("stanzas_with_own_name_payload_pattern", 1)
+				c.Count(kind+"_with_own_name_payload_pattern", 1)
+				if x.Shape == "empty" && kind != "iq" {
+					if len(x.Invoke) == 1 {
+						c.Count("empty_stanza_own_name_pattern_wildcard_due", 1)
+					} else {
+						c.Count("empty_stanza_own_name_pattern_nothing_due", 1)
+					}
+				}
+				for _, k := range e.Kids {
+					if k.Space == e.Space && k.Local == e.Local {
+						c.Count("child_with_stanza_own_name_matched_by_pattern", 1)
+					}
+				}
+			}
 		}
 	}
 
@@ -765,7 +795,17 @@ func sig(c *core.Case, cs *Case, ref *refMux, i int) {
 	if nk > 2 {
 		nk = 2
 	}
-	c.Sig("%s/%s/ns=%v/kids=%d/mask=%s/steps=%s/reads=%s/fb=%v", x.Kind, x.Shape, cs.StanzaNS != "", nk, mask, steps, reads, x.Fallback)
+	own := ""
+	if isStanzaLocal(x.Kind) {
+		for _, n := range ownNames(x.Kind, e.Space) {
+			if _, ok := ref.pats[patKey{x.Kind, effectiveType(e), n}]; ok {
+				own += "1"
+			} else {
+				own += "0"
+			}
+		}
+	}
+	c.Sig("%s/%s/ns=%v/kids=%d/mask=%s/own=%s/steps=%s/reads=%s/fb=%v", x.Kind, x.Shape, cs.StanzaNS != "", nk, mask, own, steps, reads, x.Fallback)
 }
 
 func runServed(c *core.Case, cs *Case) {
@@ -1044,7 +1084,10 @@ func Prop() *core.Prop {
 	req := []string{"iq_fallback_reply", "iq_fallback_silent", "empty_stanza_to_wildcard", "replay_after_earlier_handler",
 		"handlers_read_all", "handlers_read_partial", "handlers_read_none", "handler_writes_seen",
 		"duplicate_registration_refused", "nil_registration_refused", "distinct_registration_accepted",
-		"served_sessions", "served_elements", "direct_elements", "top_exact", "top_local", "top_ns", "other_nothing"}
+		"served_sessions", "served_elements", "direct_elements",
+		"stanzas_with_own_name_payload_pattern", "iq_with_own_name_payload_pattern", "message_with_own_name_payload_pattern",
+		"presence_with_own_name_payload_pattern", "empty_stanza_own_name_pattern_wildcard_due", "empty_stanza_own_name_pattern_nothing_due",
+		"child_with_stanza_own_name_matched_by_pattern", "top_exact", "top_local", "top_ns", "other_nothing"}
 	for _, k := range kinds {
 		for _, s := range []string{"exact", "local", "ns", "wild", "nothing"} {
 			if k == "iq" && s == "nothing" {
@@ -1056,7 +1099,7 @@ func Prop() *core.Prop {
 	return &core.Prop{
 		ID:    "C14",
 		Level: core.Exploration,
-		Rule:  "a case is a multiplexer (stanza namespace client/server/any) with a PRNG-drawn pattern set: for one or two (kind,type) pairs a random subset of the nine names over 2 local names x 2 namespaces (4 exact, 2 local-only, 2 namespace-only, the bare wildcard), up to 5 patterns with the same names under other kinds/types, up to 3 top-level names; 1-3 incoming elements (stanzas of the focus pairs, of other kinds/types, in the other content namespace, non-stanza top-level elements) with 0-4 children in any order, nested children, white space, names outside the universe. Every handler is tagged with its pattern, reads a fixed number of tokens (0-7 or until EOF and beyond) and may write a marker. Each element goes through ServeMux.HandleXMPP on an element-limited reader (and 1 case in 12 also through a served session); the handlers invoked, the tokens each could read and what reached the encoder are compared with a reference lookup written from the statement. 1 case in 4 also registers a duplicate, a nil handler, a nil handler function or a near-duplicate. distinct = (kind, empty/children, pattern-class mask for the first child, steps chosen, read classes, fallback).",
+		Rule:  "a case is a multiplexer (stanza namespace client/server/any) with a PRNG-drawn pattern set: for one or two (kind,type) pairs a random subset of the nine names over 2 local names x 2 namespaces (4 exact, 2 local-only, 2 namespace-only, the bare wildcard), for a quarter of those pairs also 1-3 payload patterns carrying the stanza's own element name / local name / content namespace (which an empty stanza must not be matched against; 4% of children carry the stanza's own name), up to 5 patterns with the same names under other kinds/types, up to 3 top-level names; 1-3 incoming elements (stanzas of the focus pairs, of other kinds/types, in the other content namespace, non-stanza top-level elements) with 0-4 children in any order, nested children, white space, names outside the universe. Every handler is tagged with its pattern, reads a fixed number of tokens (0-7 or until EOF and beyond) and may write a marker. Each element goes through ServeMux.HandleXMPP on an element-limited reader (and 1 case in 12 also through a served session); the handlers invoked, the tokens each could read and what reached the encoder are compared with a reference lookup written from the statement. 1 case in 4 also registers a duplicate, a nil handler, a nil handler function or a near-duplicate. distinct = (kind, empty/children, pattern-class mask for the first child, steps chosen, read classes, fallback).",
 		Assumptions: []string{
 			"a message without a type attribute is of type normal, a presence without one is available; elements with undefined type values are not generated",
 			"a stanza whose only content is character data is not generated (the statement speaks of child payloads and of empty stanzas only)",
